@@ -109,12 +109,19 @@ pub fn do_auth(stream: &mut UnixStream) -> std::io::Result<AuthResult> {
     #[cfg(not(any(target_os = "freebsd", target_os = "dragonfly")))]
     let cmsgs = [];
 
+    // A server that closes the connection right away must make this fail with an error like every later write
+    // (std's UnixStream::write passes MSG_NOSIGNAL too), not kill the process with SIGPIPE.
+    #[cfg(any(target_os = "linux", target_os = "android"))]
+    let flags = socket::MsgFlags::MSG_NOSIGNAL;
+    #[cfg(not(any(target_os = "linux", target_os = "android")))]
+    let flags = socket::MsgFlags::empty();
+
     // send a null byte as the first thing
     sendmsg::<()>(
         stream.as_raw_fd(),
         &[IoSlice::new(&[0])],
         &cmsgs,
-        socket::MsgFlags::empty(),
+        flags,
         None,
     )?;
 
